@@ -1,0 +1,114 @@
+//go:build verif
+
+package tengo
+
+// Contracts for the tgvc verifier (see /verif/DESIGN.md). Comment-only file:
+// with the build tag off it is not compiled, with it on it declares nothing.
+
+//@ global TrueValue
+//@ global FalseValue
+//@ global UndefinedValue
+//@ global ErrStackOverflow
+//@ global ErrObjectAllocLimit
+//@ global ErrIndexOutOfBounds
+//@ global ErrInvalidIndexType
+//@ global ErrInvalidIndexValueType
+//@ global ErrInvalidIndexOnError
+//@ global ErrInvalidOperator
+//@ global ErrWrongNumArguments
+//@ global ErrBytesLimit
+//@ global ErrStringLimit
+//@ global ErrNotIndexable
+//@ global ErrNotIndexAssignable
+//@ global ErrNotImplemented
+//@ global ErrInvalidRangeStep
+
+// ---------------------------------------------------------------------------
+// external functions (assumed contracts)
+// ---------------------------------------------------------------------------
+
+//@ func extern (time.Time).Before
+//@   pure
+//@   ensures result == spec.tbefore(self, a0)
+//@ func extern (time.Time).After
+//@   pure
+//@   ensures result == spec.tbefore(a0, self)
+//@ func extern (time.Time).Equal
+//@   pure
+//@   ensures result == spec.tequal(self, a0)
+//@ func extern (time.Time).IsZero
+//@   pure
+//@   ensures result == spec.tiszero(self)
+//@ func extern (time.Time).Add
+//@   pure
+//@ func extern (time.Time).Sub
+//@   pure
+//@ func extern (time.Time).String
+//@   pure
+//@ func extern time.Unix
+//@   pure
+//@ func extern math.IsNaN
+//@   pure
+//@   ensures result == spec.isnan(a0)
+//@ func extern strconv.FormatInt
+//@   pure
+//@ func extern strconv.FormatFloat
+//@   pure
+//@ func extern strconv.Quote
+//@   pure
+//@ func extern strconv.ParseInt
+//@   pure
+//@ func extern strconv.ParseFloat
+//@   pure
+
+// ---------------------------------------------------------------------------
+// interface Object: the contract every value type refines
+// ---------------------------------------------------------------------------
+
+//@ func interface Object.TypeName
+//@   props C08
+//@   assigns nothing
+
+//@ func interface Object.String
+//@   props C08
+//@   assigns nothing
+
+//@ func interface Object.BinaryOp
+//@   props C08 C09
+//@   assigns nothing
+//@   ensures cmp{C10,C01}: spec.known(view(self)) && spec.iscmp(op) && spec.ordered(view(self), view(rhs))
+//@              ==> res1 == nil && res0 == boolobj(spec.cmp(op, view(self), view(rhs)))
+//@   ensures cmp_unsupported{C10,C01}: spec.known(view(self)) && spec.iscmp(op) && !spec.ordered(view(self), view(rhs))
+//@              ==> res0 == nil && res1 == ErrInvalidOperator
+//@   ensures arith{C01}: spec.arith_ok(op, view(self), view(rhs))
+//@              ==> res1 == nil && spec.sameval(view(res0), spec.arith(op, view(self), view(rhs)))
+//@   ensures arith_unsupported{C01}: spec.numeric(view(self)) && !spec.iscmp(op) && !spec.arith_ok(op, view(self), view(rhs))
+//@              ==> res0 == nil && res1 == ErrInvalidOperator
+
+//@ func interface Object.IsFalsy
+//@   props C08 C09
+//@   assigns nothing
+//@   ensures falsy{C10}: spec.known(view(self)) ==> result == spec.falsy(view(self))
+
+//@ func interface Object.Equals
+//@   props C08 C09
+//@   assigns nothing
+//@   ensures scalar{C10}: spec.scalar(view(self)) ==> result == spec.eqv(view(self), view(another))
+//@   ensures ident{C10}: is(self, *Bool) || is(self, *Undefined) || is(self, *Error) || is(self, *ObjectPtr) ==> result == (self == another)
+//@   ensures funcs{C10}: is(self, *CompiledFunction) || is(self, *BuiltinFunction) || is(self, *UserFunction) ==> !result
+
+//@ func interface Object.Copy
+//@   props C08 C09
+//@   assigns nothing
+
+//@ func interface Object.IndexGet
+//@   props C08 C09
+//@   assigns nothing
+
+//@ func interface Object.CanIterate
+//@   props C08 C09
+//@   assigns nothing
+
+//@ func interface Object.CanCall
+//@   props C08 C09
+//@   assigns nothing
